@@ -168,6 +168,16 @@ def _case(draw):
     ctx = draw(talgen.context(hostile=True))
     if mode == "skeleton":
         tpl = _strip_structure(tpl)
+    if mode == "skeleton" and draw(st.integers(0, 2)) == 0:
+        # raw-text elements (script / style, whose content HTML does not entity-decode) with substituted TEXT content: the
+        # value is escaped there like anywhere else - a '</script>' in the data must not end the element
+        for i in range(draw(st.integers(1, 2))):
+            ex = draw(st.sampled_from(["s1", "s2", "lst/0", "d1/k_a", "lst2/0", "string:var x = '${s1}';", "f1", "text s2", "d1/k_b/k_c"]))
+            tal = {draw(st.sampled_from(["content", "content", "replace"])): ex}
+            if draw(st.integers(0, 3)) == 0:
+                tal["attributes"] = "title s1"
+            tpl = tpl + [{"t": "el", "tag": draw(st.sampled_from(["script", "style"])), "attrs": [["type", "text/x"]], "tal": tal, "metal": {},
+                          "kids": [{"t": "text", "s": "x"}], "void": False}]
     c = {"mode": mode, "template": tpl, "ctx": ctx, "minimize": draw(st.booleans())}
     if mode == "restore" and draw(st.booleans()):
         # the include-with-parameter idiom: an element that defines a local AND inserts a compiled template from the
